@@ -15,6 +15,7 @@ import numpy as np
 from hypothesis import strategies as st
 
 from pbt import methods as M
+from pbt import traj
 from pbt.core import V, Part, exc_sig, exc_origin
 
 ID = "C11"
@@ -93,7 +94,22 @@ def parts(tier):
         Part("poles", enumerate=_poles_cases, timeout=120, exhaustive=True),
         Part("table", strategy=_zs(), examples=800 if q else 50000, timeout=60),
         Part("step", strategy=_step(), examples=2000 if q else 30000, timeout=300),
+        Part("switch", strategy=_switch(), examples=300 if q else 6000, timeout=300),
     ]
+
+
+@st.composite
+def _switch(draw):
+    """a system integrated with one method over a whole number of steps, switched to an implicit method without reset(), and
+    integrated on with the same dt (optionally across a second switch): whatever the first integrator leaves behind (and what a
+    method switch carries over into the new one) must not reach the steps of the second"""
+    first = draw(st.sampled_from(["BackwardEuler", "CrankNicolson", "ImplicitMidpoint", "GaussLegendre4", "RK4Solver", "RadauIIA5", "RK45CKSolver"]))
+    seconds = draw(st.lists(st.sampled_from(M.names("implicit")), min_size=1, max_size=2))
+    h = draw(st.sampled_from([0.125, 0.25, 0.0625])) * draw(st.sampled_from([1.0, -1.0]))
+    z = draw(st.sampled_from([0.5, 1.0, 3.0, 8.0, 24.0]))
+    return dict(part="switch", first=first, seconds=seconds, h=h, z=z, kind=draw(st.sampled_from(["real", "real", "complex"])), ang=draw(st.sampled_from([2.0, 2.6, 3.0])),
+                k=draw(st.integers(1, 4)), m=draw(st.integers(2, 4)), tol=draw(st.sampled_from([1e-6, 1e-9])), t0=draw(st.sampled_from([0.0, 1.0, -2.0])),
+                y0=[draw(st.sampled_from([1.0, -0.5, 2.0])), draw(st.sampled_from([0.0, 1.0]))], same_dt=draw(st.sampled_from([True, True, False])))
 
 
 def _check_poles(case):
@@ -223,5 +239,66 @@ def _check_step(case):
                        metrics={"step_vs_R/allowed": err / slackabs})
 
 
+def _check_switch(case):
+    import desolver as de
+    h = case["h"]
+    if case["kind"] == "real":
+        lam = complex(-case["z"] / abs(h), 0.0)
+        Amat = np.array([[lam.real]])
+        y0 = np.array([case["y0"][0]], dtype=np.float64)
+    else:
+        lam = case["z"] * np.exp(1j * case["ang"]) / abs(h)
+        Amat = np.array([[lam.real, -lam.imag], [lam.imag, lam.real]])
+        y0 = np.array(case["y0"], dtype=np.float64)
+    if h < 0:
+        lam, Amat = -lam, -Amat          # Re(lambda h) <= 0 with a negative step
+    tol = case["tol"]
+    labels = ["switch:" + case["first"] + "->" + "->".join(case["seconds"]), "h<0" if h < 0 else "h>0"]
+    a = de.OdeSystem(lambda t, y, **kw: Amat @ y, y0=y0.copy(), t=(case["t0"], case["t0"] + 64 * h), dt=abs(h), rtol=tol, atol=tol)
+    a.method = M.get(case["first"])
+    phases = [(case["first"], case["k"])] + [(nm, case["m"]) for nm in case["seconds"]]
+    viols = []
+    t_target = case["t0"]
+    judged = 0
+    for p_i, (name, nsteps) in enumerate(phases):
+        if p_i > 0:
+            a.method = M.get(name)
+            if not case["same_dt"]:
+                a.dt = abs(h)
+        t_target = t_target + nsteps * h
+        n_before = len(a)
+        err = traj.run_integrate(a, np.float64(t_target), step_limit=n_before + 400)
+        if isinstance(err, traj.StepCap):
+            return viols, dict(nontrivial=False, labels=labels + ["capped"])
+        if err is not None:
+            if exc_origin(err)[0] == "harness":
+                raise err
+            if isinstance(err.__cause__, de.exception_types.FailedToMeetTolerances):
+                return viols, dict(nontrivial=False, labels=labels + ["reported_failure"])
+            return [V("switch_raised", "{} after switching from {}: {!r} caused by {!r}".format(name, phases[p_i - 1][0] if p_i else "-", err, err.__cause__), name + exc_sig(err), method=name)], dict(nontrivial=False, labels=labels)
+        if p_i == 0 or not M.is_implicit(name):
+            continue
+        c, A, B = M.tableau(name)
+        t = np.asarray(a.t, dtype=np.float64)
+        y = np.asarray(a.y, dtype=np.float64)
+        for n in range(n_before - 1, len(t) - 1):
+            dT = float(t[n + 1] - t[n])
+            ya, yb = y[n], y[n + 1]
+            na = float(np.linalg.norm(ya))
+            if na == 0.0 or not np.isfinite(na):
+                break
+            ratio = complex(yb[0] / ya[0]) if case["kind"] == "real" else complex(yb[0], yb[1]) / complex(ya[0], ya[1])
+            Rz = complex(R(A, B[0], lam * dT))
+            newton_tol = 0.5 * (tol + tol * float(np.max(np.abs(ya))))
+            slackabs = 10 * newton_tol * max(1.0, abs(dT)) + 1e-9 * max(1.0, na)
+            e = abs(ratio - Rz) * na
+            judged += 1
+            if not e <= slackabs:
+                viols.append(V("step_vs_R_after_switch", "{} (selected after {} steps of {} with dt {}, no reset): step {} gives y1/y0 = {!r} but R(lambda dT) = {!r} (|difference| x |y0| = {:.3e}, allowed {:.3e}; lambda = {!r}, dT = {})".format(
+                    name, phases[p_i - 1][1], phases[p_i - 1][0], h, n - (n_before - 1), ratio, Rz, e, slackabs, lam, dT), name, method=name))
+                return viols, dict(nontrivial=True, labels=labels)
+    return viols, dict(nontrivial=judged > 0, labels=labels, counts=dict(steps_judged_after_a_switch=judged))
+
+
 def check(case):
-    return {"poles": _check_poles, "table": _check_table, "step": _check_step}[case["part"]](case)
+    return {"poles": _check_poles, "table": _check_table, "step": _check_step, "switch": _check_switch}[case["part"]](case)
